@@ -289,6 +289,11 @@ static void read_all(const char *who, vnadata_t *v, fz_errlog_t *el, bool loaded
     (void)sink;
     FZ_CHECK(el->el_errors == before, "C09.vnadata_getter_failed", "%s: a getter reported an error: %s", who, el->el_last);
     if (loaded) {
+	/* the loaders enforce 0..VNADATA_MAX_PRECISION on the precisions a file may carry (vnadata_save sizes buffers from them) */
+	FZ_CHECK(vnadata_get_fprecision(v) >= 0 && vnadata_get_fprecision(v) <= VNADATA_MAX_PRECISION &&
+		vnadata_get_dprecision(v) >= 0 && vnadata_get_dprecision(v) <= VNADATA_MAX_PRECISION,
+		"C09.vnadata_precision_out_of_range", "%s: loaded object has precisions %d / %d outside 0..%d", who,
+		vnadata_get_fprecision(v), vnadata_get_dprecision(v), VNADATA_MAX_PRECISION);
 	FZ_CHECK(dims_legal(vnadata_get_type(v), rows, cols), "C09.vnadata_dims_illegal_for_type",
 		"%s: loaded object has type %d (%s) with %d x %d", who, (int)vnadata_get_type(v),
 		vnadata_get_type_name(vnadata_get_type(v)), rows, cols);
